@@ -254,4 +254,99 @@ theorem langAll_eq_foldr (l : List RE) : langAll l = (l.map lang).foldr (· ⊓ 
   | nil => rfl
   | cons x xs ih => simp only [langAll, List.map_cons, List.foldr_cons, ih]
 
+/-! ### the invariant of every term a manager can build, per public constructor -/
+
+/-- well-formed, no `[0,0]` loop, complement nodes canonical -/
+def Inv (e : RE) : Prop := e.WF ∧ e.NZ ∧ ComplCanon e
+
+theorem Inv.good {e : RE} (h : Inv e) : Deriv.Good e := ⟨h.1, h.2.1⟩
+
+theorem invList_wf {l : List RE} (h : ∀ e ∈ l, Inv e) : WFList l :=
+  (WFList_iff l).2 (fun e he => (h e he).1)
+theorem invList_nz {l : List RE} (h : ∀ e ∈ l, Inv e) : NZList l :=
+  (nzList_iff l).2 (fun e he => (h e he).2.1)
+theorem invList_canon {l : List RE} (h : ∀ e ∈ l, Inv e) : ComplCanonList l :=
+  (ComplCanonList_iff l).2 (fun e he => (h e he).2.2)
+
+theorem rangeOK_bridge {r : LoopRange} (h : RE.RangeOK r) : Deriv.RangeOK r := h
+
+theorem empty_inv : Inv .empty := ⟨trivial, nz_empty, trivial⟩
+theorem epsilon_inv : Inv .epsilon := ⟨trivial, nz_epsilon, trivial⟩
+theorem sigma_inv : Inv sigma := ⟨sigma_wf, nz_sigma, range_canon _⟩
+theorem sigmaStar_inv : Inv sigmaStar := ⟨sigmaStar_wf, nz_sigmaStar, sigmaStar_canon⟩
+theorem sigmaPlus_inv : Inv sigmaPlus := ⟨sigmaPlus_wf, nz_sigmaPlus, sigmaPlus_canon⟩
+
+theorem charSet_inv (cs : CharSet) (h : cs.WF) : Inv (charSet cs) :=
+  ⟨by rw [charSet, WF]; exact h, nz_range cs, range_canon cs⟩
+
+theorem char?_inv (x : ℕ) (e : RE) (h : char? x = some e) : Inv e := by
+  obtain ⟨s, rfl⟩ := char?_shape x e h
+  exact ⟨char?_wf x _ h, nz_range s, range_canon s⟩
+
+theorem range?_inv (a b : ℕ) (e : RE) (h : range? a b = some e) : Inv e := by
+  obtain ⟨s, rfl⟩ := range?_shape a b e h
+  exact ⟨range?_wf a b _ h, nz_range s, range_canon s⟩
+
+theorem smtRange_inv (s1 s2 : List ℕ) (h2 : WFs s2) : Inv (smtRange s1 s2) := by
+  refine ⟨smtRange_wf s1 s2 h2, ?_⟩
+  rcases smtRange_shape s1 s2 with h | ⟨s, h⟩
+  · rw [h]; exact ⟨nz_empty, trivial⟩
+  · rw [h]; exact ⟨nz_range s, range_canon s⟩
+
+theorem str?_inv (s : List ℕ) (e : RE) (h : str? s = some e) : Inv e :=
+  ⟨str?_wf s e h, (str?_nz_canon s e h).1, (str?_nz_canon s e h).2⟩
+
+theorem complement_inv (e : RE) (h : Inv e) : Inv e.complement :=
+  ⟨complement_wf e h.1, DerivNZ.complement_nz e h.2.1, complement_canon e h.2.2⟩
+
+theorem mkConcat_inv (a b : RE) (ha : Inv a) (hb : Inv b) : Inv (mkConcat a b) :=
+  ⟨mkConcat_wf a b ha.1 hb.1, (mkConcat_good a b ha.good hb.good).2,
+    mkConcat_canon a b ha.2.2 hb.2.2⟩
+
+theorem concatList_inv (l : List RE) (h : ∀ e ∈ l, Inv e) : Inv (concatList l) :=
+  ⟨concatList_wf l (invList_wf h), concatList_nz l (invList_wf h) (invList_nz h),
+    concatList_canon l (invList_canon h)⟩
+
+theorem mkLoop_inv (e : RE) (r : LoopRange) (h : Inv e) (hr : RE.RangeOK r) : Inv (mkLoop e r) :=
+  ⟨mkLoop_wf e r h.1 hr, DerivNZ.mkLoop_nz e r h.1 h.2.1 (rangeOK_bridge hr), mkLoop_canon e r h.2.2⟩
+
+theorem star_inv (e : RE) (h : Inv e) : Inv (star e) := mkLoop_inv e _ h (rangeOK_inf 0)
+theorem plus_inv (e : RE) (h : Inv e) : Inv (plus e) := mkLoop_inv e _ h (rangeOK_inf 1)
+theorem opt_inv (e : RE) (h : Inv e) : Inv (opt e) :=
+  mkLoop_inv e _ h ((rangeOK_fin 0 1).2 (Nat.zero_le _))
+theorem exp_inv (e : RE) (k : ℕ) (h : Inv e) : Inv (exp e k) := mkLoop_inv e _ h (rangeOK_point k)
+
+theorem smtLoop_inv (e : RE) (i j : ℕ) (h : Inv e) : Inv (smtLoop e i j) := by
+  unfold smtLoop
+  split
+  · rename_i hij; exact mkLoop_inv e _ h ((rangeOK_fin i j).2 hij)
+  · exact empty_inv
+
+theorem mkUnion_inv (ord : RE → Nat) (a b : RE) (ha : Inv a) (hb : Inv b) : Inv (mkUnion ord a b) :=
+  ⟨Final.mkUnion_wf ord a b ha.1 hb.1, DerivNZ.mkUnion_nz ord a b ha.2.1 hb.2.1,
+    mkUnion_canon ord a b ha.2.2 hb.2.2⟩
+
+theorem mkUnionList_inv (ord : RE → Nat) (l : List RE) (h : ∀ e ∈ l, Inv e) :
+    Inv (mkUnionList ord l) :=
+  ⟨Final.mkUnionList_wf ord l (invList_wf h), DerivNZ.mkUnionList_nz ord l (invList_nz h),
+    mkUnionList_canon ord l (invList_canon h)⟩
+
+theorem mkInter_inv (ord : RE → Nat) (a b : RE) (ha : Inv a) (hb : Inv b) : Inv (mkInter ord a b) :=
+  ⟨Final.mkInter_wf ord a b ha.1 hb.1, DerivNZ.mkInter_nz ord a b ha.2.1 hb.2.1,
+    mkInter_canon ord a b ha.2.2 hb.2.2⟩
+
+theorem mkInterList_inv (ord : RE → Nat) (l : List RE) (h : ∀ e ∈ l, Inv e) :
+    Inv (mkInterList ord l) :=
+  ⟨Final.mkInterList_wf ord l (invList_wf h), DerivNZ.mkInterList_nz ord l (invList_nz h),
+    mkInterList_canon ord l (invList_canon h)⟩
+
+theorem mkDiff_inv (ord : RE → Nat) (a b : RE) (ha : Inv a) (hb : Inv b) : Inv (mkDiff ord a b) :=
+  ⟨Final.mkDiff_wf ord a b ha.1 hb.1, mkDiff_nz ord a b ha.2.1 hb.2.1,
+    mkDiff_canon ord a b ha.2.2 hb.2.2⟩
+
+theorem mkDiffList_inv (ord : RE → Nat) (a : RE) (l : List RE) (ha : Inv a) (h : ∀ e ∈ l, Inv e) :
+    Inv (mkDiffList ord a l) :=
+  ⟨Final.mkDiffList_wf ord a l ha.1 (invList_wf h), mkDiffList_nz ord a l ha.2.1 (invList_nz h),
+    mkDiffList_canon ord a l ha.2.2 (invList_canon h)⟩
+
 end Smt.ReBuild
